@@ -40,6 +40,7 @@ type aDB struct {
 	stmts         int
 	failAt        int
 
+	setCols            map[int]bool // columns assigned by the UPDATE statement(s) of the last Exec
 	savepoint          []aRow
 	savepoints         int
 	savepointRollbacks int
@@ -320,6 +321,7 @@ func (t aTx) Rollback() error { t.d.txRollbacks++; return nil }
 
 func (c *aConn) ExecContext(ctx context.Context, q string, args []driver.NamedValue) (driver.Result, error) {
 	d := c.d
+	d.setCols = map[int]bool{}
 	d.journal = append(d.journal, q)
 	k := d.stmts
 	d.stmts++
@@ -406,6 +408,7 @@ func (c *aConn) execOne(st ast.StmtNode, q string, args []driver.NamedValue) (dr
 					d.bad = "unknown column in SET"
 					return nil, errors.New(d.bad)
 				}
+				d.setCols[cidx] = true
 				r.cells[cidx] = aInt(e.eval(as.Expr))
 			}
 			if e.bad != "" {
